@@ -278,6 +278,59 @@ def tokenising_pass(idx, fn, e):
     return None
 
 
+def _lines_kept_by_hand(L):
+    """None when every nonterminal whose line an action reads has its line stored by all its productions (see C11.a);
+    (nonterminal, reader, production) for the first that has not; () when no action stores lines at all."""
+    toks = set(L.tokens)
+    prods_of = {}
+    for p in L.productions:
+        prods_of.setdefault(p.lhs, []).append(p)
+
+    def stores_line(p):
+        parg = p.func.args.args[-1].arg
+        for c in ast.walk(p.func):
+            if isinstance(c, ast.Call) and isinstance(c.func, ast.Attribute) and c.func.attr == "set_lineno" and isinstance(c.func.value, ast.Name) and c.func.value.id == parg \
+                    and len(c.args) == 2 and isinstance(c.args[0], ast.Constant) and c.args[0].value == 0 and K.src(c.args[1]).replace(" ", "") == "%s.lineno(1)" % parg:
+                return True
+        return False
+
+    if not any(stores_line(p) for p in L.productions):
+        return ()
+    memo = {}
+
+    def valid(nt, stack=()):
+        if nt in toks:
+            return None
+        if nt in memo:
+            return memo[nt]
+        if nt in stack:
+            return None
+        for p in prods_of.get(nt, []):
+            if not p.rhs:
+                memo[nt] = (nt, p)
+                return memo[nt]
+            if not stores_line(p):
+                memo[nt] = (nt, p)
+                return memo[nt]
+            sub = valid(p.rhs[0], stack + (nt,))
+            if sub is not None:
+                memo[nt] = sub
+                return sub
+        memo[nt] = None
+        return None
+
+    for p in L.productions:
+        parg = p.func.args.args[-1].arg
+        for c in ast.walk(p.func):
+            if isinstance(c, ast.Call) and isinstance(c.func, ast.Attribute) and c.func.attr == "lineno" and isinstance(c.func.value, ast.Name) and c.func.value.id == parg \
+                    and len(c.args) == 1 and isinstance(c.args[0], ast.Constant) and isinstance(c.args[0].value, int) and 1 <= c.args[0].value <= len(p.rhs):
+                sym = p.rhs[c.args[0].value - 1]
+                bad = valid(sym)
+                if bad is not None:
+                    return (bad[0], p.func.name, str(bad[1]))
+    return None
+
+
 def text_reaches_lexer(ctx, idx, rule, consequence):
     """from_source -> Parser.parse -> PLY: each hop passes its own text parameter on as it is"""
     hops = [(idx.func("mpilot.program", "Program.from_source"), "from_source -> Parser.parse"), (idx.func("mpilot.parser.parser", "Parser.parse"), "Parser.parse -> PLY parse")]
@@ -403,8 +456,18 @@ def run(ctx, idx):
                 why_lex = "this parser's lexer is made PLY's default lexer (ply.lex.lexer = self.lexer) on every path to the call"
                 lexarg = sets[0].meta["value"]
         ok_trk = isinstance(kws.get("tracking"), ast.Constant) and kws["tracking"].value is True
+        why_trk = "tracking=True" if ok_trk else "parse() is called without tracking=True: p.lineno() of nonterminals is 0"
+        if not ok_trk and "tracking" not in kws:
+            # without tracking PLY records a line for terminals only.  The actions may keep the lines themselves: every production
+            # of a nonterminal whose line some action reads stores `p.set_lineno(0, p.lineno(1))`, its own first symbol being a
+            # terminal or such a nonterminal again
+            bad_nt = _lines_kept_by_hand(L)
+            if bad_nt is None:
+                ok_trk, why_trk = True, "no tracking, but every production of every nonterminal whose line is read stores the line of its first token (p.set_lineno(0, p.lineno(1)))"
+            elif bad_nt:
+                why_trk = "parse() is called without tracking=True and `%s` (read through p.lineno() by %s) does not store its line in production `%s`: such a node gets line 0" % bad_nt
         ctx.ob("C11.a", con + "::lexer-explicit", K.rel(fi), c.line, ok_lex, why_lex if ok_lex else "parse() is called without lexer=: PLY falls back to the module-global last-created lexer, whose position and line counter belong to another parse")
-        ctx.ob("C11.a", con + "::tracking", K.rel(fi), c.line, ok_trk, "tracking=True" if ok_trk else "parse() is called without tracking=True: p.lineno() of nonterminals is 0")
+        ctx.ob("C11.a", con + "::tracking", K.rel(fi), c.line, ok_trk, why_trk)
         resets = cfg.find("store", lambda n: n.meta.get("attr") == "lineno" and isinstance(n.meta.get("value"), ast.Constant) and n.meta["value"].value == 1)
         fresh = False
         if isinstance(lexarg, ast.Name):
